@@ -597,3 +597,29 @@ Proof.
   unfold caller_dir. rewrite resolve_self_dot; [reflexivity|].
   apply abs_normalized_resolve. apply abs_normalized_inv in Hroot as [Hra _]. exact Hra.
 Qed.
+
+(* ---------- build targets typed on the command line ---------- *)
+Lemma normalize_target_designates_same seen root raw :
+  wf_root root = true -> wf_root seen = true ->
+  resolve root (normalize_target seen root raw) = resolve seen raw.
+Proof.
+  intros Hr Hs. unfold normalize_target, plib_relpath.
+  unfold resolve at 1. rewrite normpath_join2_norm_r. fold (resolve root (plib_relpathto seen root (abspath seen raw))).
+  change (abspath seen raw) with (resolve seen raw).
+  apply resolve_relpathto; [exact Hr|].
+  apply abs_normalized_resolve. apply abs_normalized_inv in Hs. tauto.
+Qed.
+
+Lemma target_flag_true : targets_normalized_in_user_cwd = true.
+Proof. reflexivity. Qed.
+
+Lemma cli_target_designates_same user_cwd root raw :
+  wf_root root = true -> wf_root user_cwd = true ->
+  resolve root (cli_target user_cwd root raw) = resolve user_cwd raw.
+Proof.
+  intros Hr Hu. unfold cli_target, seen_cwd. rewrite target_flag_true.
+  apply normalize_target_designates_same; assumption.
+Qed.
+
+Lemma normalize_target_normalized seen root raw : normalized (normalize_target seen root raw) = true.
+Proof. unfold normalize_target, normalized. rewrite normpath_idem. apply str_eqb_refl. Qed.
